@@ -1,5 +1,5 @@
 (* Case runner and spec checker (T3) for C08. *)
-From WI Require Import Lib.Base Lib.Info Model.Cost.
+From WI Require Import Lib.Base Lib.Info Model.Cost Model.CostPgp.
 Open Scope N_scope.
 
 Definition aN (n : N) : arg := AZ (Z.of_N n).
@@ -13,6 +13,16 @@ Definition low8 (b : bytes) : arg := AB (N_to_be 8 (be_to_N (drop (length b - 8)
 Fixpoint flatten_raw (r : raw) : list arg :=
   match r with
   | Raw c t len full ch => AL [aN c; aN t; aN len; aN full; aN (lenN ch)] :: flat_map flatten_raw ch
+  end.
+
+(* what the harness prints for a typed packet: (kind ...) *)
+Definition obs_tpacket (p : tpacket) : arg :=
+  match p with
+  | TSig g => AL [AZ (if ts_v3 g then 2 else 1); aN (ts_type g)]
+  | TKey k secret =>
+      AL [AZ (if secret then 5 else if tk_v3 k then 4 else 3); aN (tk_algo k); ok_arg (tk_sub k)]
+  | TUid id => AL [AZ 6; aN (lenN id)]
+  | TAttr n => AL [AZ 7; aN n]
   end.
 
 (* ---- the model's observation ---- *)
@@ -37,22 +47,19 @@ Definition run_C08 (op : bytes) (input : arg) : arg :=
   else if bytes_eqb op (bs "rpm") then
     (* file.RPMFile: accepted or refused (pre-validation rpmCheckIndex, then the library) *)
     obs_cres (fun _ => AL []) (rpm_file data)
+  else if bytes_eqb op (bs "armor") then obs_cres aN (armor_decode data)
+  else if bytes_eqb op (bs "pgptyped") then
+    match fst (pgp_typed_all (aux_ripemd aux) data) with
+    | (ps, e) => AL [AL (map obs_tpacket ps); AZ (match e with TEnd => 0 | _ => 1 end)]
+    end
+  else if bytes_eqb op (bs "pgpread") then
+    obs_cres (fun x => AL [aN (snd x)]) (pgp_read_entity (aux_ripemd aux) (aux_keyid aux) (aux_verify aux) data)
   else if bytes_eqb op (bs "stream") then
     (* input: (length-or--1 pattern): the CLI reads min(length, cap) bytes and exits 0 *)
     let len := arg_Z (arg_nth 0 input) in
     AL [AZ 0; aN (if (len <? 0)%Z then max_read_size else N.min (Z.to_N len) max_read_size)]
   else if bytes_eqb op (bs "file") then AL [AZ 0; AZ 1]
-  else if bytes_eqb op (bs "alloc") then
-    (* informational (this op is not compared): the model's cost account of the component *)
-    let comp := arg_bytes (arg_nth 0 input) in
-    match arg_nth 2 input with
-    | AB d =>
-        match component_log comp d (arg_bytes (arg_nth 3 input)) with
-        | Some l => AL [aN (log_cost l); ok_arg (log_trusting l)]
-        | None => AL []
-        end
-    | _ => AL []
-    end
+  else if bytes_eqb op (bs "alloc") then AL []    (* not compared; the cost account is evaluated by check_C08 *)
   else AL [].
 
 (* ---- the property, evaluated on what the implementation did (T3) ----
@@ -89,7 +96,55 @@ Definition diagnose (comp : bytes) (d : arg) : bytes :=
   | _ => []
   end.
 
+(* ---- growth clause for a doubling series (op series) ----
+   input: (component name (input_1 input_2 input_3)) - the same shape at growing sizes;
+   impl: ((status allocated wall-us cpu-us) ...) in the same order.
+   For every pair x before y of the series:
+       cpu(y) <= 8 * ceil(len(y) / len(x)) * max(cpu(x), 50 ms) + 200 ms
+   i.e. time may grow 8 times faster than the size (any linear and any reasonable n log n
+   process passes; a cubic one - 64-fold for a 4-fold input - does not), a time below the
+   measurement noise of 50 ms counts as 50 ms, and 200 ms of slack absorb a collection cycle.
+   The members of a series are also alloc cases of their own (absolute clauses). *)
+Definition series_factor : N := 8.
+Definition series_noise_us : N := 50000.
+Definition series_slack_us : N := 200000.
+
+Definition series_pair_bad (x y : N * N) : bool :=
+  let '(lx, cx) := x in let '(ly, cy) := y in
+  if lx =? 0 then false else
+  let k := (ly + lx - 1) / lx in
+  series_factor * k * N.max cx series_noise_us + series_slack_us <? cy.
+
+Fixpoint series_first_bad (l : list (N * N)) : option ((N * N) * (N * N)) :=
+  match l with
+  | [] => None
+  | x :: r =>
+      match find (series_pair_bad x) r with
+      | Some y => Some (x, y)
+      | None => series_first_bad r
+      end
+  end.
+
+Definition series_items (inputs impls : list arg) : list (N * N) :=
+  map (fun p => (input_len (fst p), arg_N (arg_nth 3 (snd p)))) (combine inputs impls).
+
+Definition series_all_completed (impls : list arg) : bool :=
+  forallb (fun r => Z.eqb (arg_Z (arg_nth 0 r)) 0) impls.
+
+Definition check_series (input impl : arg) : arg :=
+  let inputs := arg_list (arg_nth 2 input) in
+  let impls := arg_list impl in
+  if negb (series_all_completed impls) then AL []   (* judged by the members' own alloc cases *)
+  else match series_first_bad (series_items inputs impls) with
+       | None => AL []
+       | Some ((lx, cx), (ly, cy)) =>
+           AB (bs "time grows super-linearly with the size of one field: " ++ dec_of_N (cx / 1000) ++ bs " ms of CPU time for "
+               ++ dec_of_N lx ++ bs " bytes, " ++ dec_of_N (cy / 1000) ++ bs " ms for " ++ dec_of_N ly
+               ++ bs " bytes (allowed: 8 times the growth of the input, plus 200 ms)")
+       end.
+
 Definition check_C08 (op : bytes) (input impl : arg) : arg :=
+  if bytes_eqb op (bs "series") then check_series input impl else
   if bytes_eqb op (bs "stream") then
     if negb (Z.eqb (arg_Z (arg_nth 0 impl)) 0) then AS "inspection of an endless input did not terminate normally"
     else if spec_read_cap <? arg_N (arg_nth 1 impl) then AS "more than 128 MB of the input were read"
@@ -116,7 +171,7 @@ Definition check_C08 (op : bytes) (input impl : arg) : arg :=
     else
       match d with
       | AB data =>
-          match component_log comp data (arg_bytes (arg_nth 3 input)) with
+          match component_log_all comp data (arg_bytes (arg_nth 3 input)) with
           | Some l =>
               let c := log_cost l in
               if model_slack_up * c + model_base_up <? meas then
